@@ -45,6 +45,25 @@ pub struct Family {
     pub wide_no_atoms: bool,
     /// for commutative calls only enumerate a <= b
     pub sym_reduce: bool,
+    /// Optional grammar: value calls are emitted stage by stage (deeper programs in a narrow
+    /// shape). When set, `value_kinds` / `max_value_ops` / `max_wide` are ignored for value calls.
+    #[serde(default)]
+    pub stages: Vec<Stage>,
+    /// Optional split bound on assertions: (max connects between two *inputs*, max assertions
+    /// involving a computed value). `max_asserts` still bounds the total.
+    #[serde(default)]
+    pub assert_split: Option<(usize, usize)>,
+}
+
+/// One stage of a staged family: exactly up to `count` calls of `kinds`, whose handle operands
+/// must have been created in one of `from_stages` (0 = fresh inputs, i = result of stage i).
+#[derive(Clone, Debug, Serialize, Deserialize)]
+pub struct Stage {
+    pub kinds: Vec<VK>,
+    pub count: usize,
+    pub from_stages: Vec<u8>,
+    pub allow_new_pub: bool,
+    pub allow_consts: bool,
 }
 
 #[derive(Clone, Debug, Default)]
@@ -56,6 +75,14 @@ pub struct EnumState {
     pub n_assert: usize,
     pub n_wide: usize,
     pub last_assert: Option<Call>,
+    /// stage in which each handle was created (0 = input)
+    pub handle_stage: Vec<u8>,
+    /// current stage (1-based) and calls emitted in it, for staged families
+    pub stage: usize,
+    pub in_stage: usize,
+    /// assertions between two inputs / involving a computed value (for `assert_split`)
+    pub n_assert_in: usize,
+    pub n_assert_res: usize,
 }
 
 impl EnumState {
@@ -66,10 +93,12 @@ impl EnumState {
                 Opnd::NewPub => {
                     s.n_pub += 1;
                     s.n_handles += 1;
+                    s.handle_stage.push(0);
                 }
                 Opnd::NewPriv => {
                     s.n_priv += 1;
                     s.n_handles += 1;
+                    s.handle_stage.push(0);
                 }
                 _ => {}
             }
@@ -77,15 +106,30 @@ impl EnumState {
         if c.is_assert() {
             s.n_assert += 1;
             s.last_assert = Some(c.clone());
+            if s.assert_is_input_only(c) {
+                s.n_assert_in += 1;
+            } else {
+                s.n_assert_res += 1;
+            }
         } else {
             s.n_value += 1;
+            let st = s.stage.max(1) as u8;
             match c {
-                Call::Bits(_, n) => s.n_handles += *n as usize,
-                _ => s.n_handles += 1,
+                Call::Bits(_, n) => {
+                    s.n_handles += *n as usize;
+                    for _ in 0..*n {
+                        s.handle_stage.push(st);
+                    }
+                }
+                _ => {
+                    s.n_handles += 1;
+                    s.handle_stage.push(st);
+                }
             }
             if c.operands().len() >= 3 {
                 s.n_wide += 1;
             }
+            s.in_stage += 1;
         }
         s
     }
@@ -158,7 +202,100 @@ fn operand_tuples(
 }
 
 /// All calls that may extend a program in state `st`.
+impl EnumState {
+    /// an assertion whose operands are all inputs (fresh or existing stage-0 handles)
+    pub fn assert_is_input_only(&self, c: &Call) -> bool {
+        matches!(c, Call::Connect(..))
+            && c.operands().iter().all(|o| match o {
+                Opnd::H(i) => self.handle_stage.get(*i as usize).copied() == Some(0),
+                Opnd::NewPub | Opnd::NewPriv => true,
+                Opnd::C(_) => false,
+            })
+    }
+
+    /// `after` for a call tagged with its stage (0 = unstaged family or assertion call).
+    pub fn after_staged(&self, c: &Call, stage_of_call: usize) -> EnumState {
+        let mut base = self.clone();
+        if stage_of_call != 0 && stage_of_call != base.stage {
+            base.stage = stage_of_call;
+            base.in_stage = 0;
+        }
+        base.after(c)
+    }
+}
+
 pub fn next_calls(fam: &Family, st: &EnumState) -> Vec<Call> {
+    next_calls_staged(fam, st).into_iter().map(|(c, _)| c).collect()
+}
+
+/// All calls that may extend a program in state `st`, each with the stage it belongs to
+/// (0 for unstaged families and for assertion calls).
+pub fn next_calls_staged(fam: &Family, st: &EnumState) -> Vec<(Call, usize)> {
+    let mut out: Vec<(Call, usize)> = vec![];
+    if fam.stages.is_empty() {
+        out.extend(unstaged_value_calls(fam, st).into_iter().map(|c| (c, 0)));
+    } else if st.n_assert == 0 {
+        // stages run in order; the next stage may start once the current one has a call
+        let cur = st.stage;
+        let mut allowed = vec![];
+        if cur == 0 {
+            allowed.push(1);
+        } else {
+            if st.in_stage < fam.stages[cur - 1].count {
+                allowed.push(cur);
+            }
+            if st.in_stage >= 1 && cur < fam.stages.len() {
+                allowed.push(cur + 1);
+            }
+        }
+        for si in allowed {
+            out.extend(stage_calls(fam, st, si).into_iter().map(|c| (c, si)));
+        }
+    }
+    out.extend(assert_calls(fam, st).into_iter().map(|c| (c, 0)));
+    out
+}
+
+fn stage_calls(fam: &Family, st: &EnumState, si: usize) -> Vec<Call> {
+    let stage = &fam.stages[si - 1];
+    let mut out = vec![];
+    let allowed = |h: usize| stage.from_stages.contains(&st.handle_stage[h]);
+    for vk in &stage.kinds {
+        let ar = match vk {
+            VK::Add | VK::Sub | VK::Mul | VK::Div => 2,
+            VK::MulAdd | VK::Select => 3,
+            VK::Horner => 4,
+            VK::Bits(_) => 1,
+        };
+        for t in operand_tuples(fam, st, ar, false, stage.allow_consts, stage.allow_new_pub) {
+            // handles created earlier must come from an allowed stage (handles allocated by
+            // this very call are fresh inputs: stage 0)
+            if t.iter().any(|o| matches!(o, Opnd::H(i) if (*i as usize) < st.n_handles && !allowed(*i as usize))) {
+                continue;
+            }
+            if t.iter().any(|o| matches!(o, Opnd::H(i) if (*i as usize) >= st.n_handles) ) && !stage.from_stages.contains(&0) {
+                continue;
+            }
+            let comm = matches!(vk, VK::Add | VK::Mul);
+            if fam.sym_reduce && comm && t[0] > t[1] {
+                continue;
+            }
+            out.push(match vk {
+                VK::Add => Call::Add(t[0], t[1]),
+                VK::Sub => Call::Sub(t[0], t[1]),
+                VK::Mul => Call::Mul(t[0], t[1]),
+                VK::Div => Call::Div(t[0], t[1]),
+                VK::MulAdd => Call::MulAdd(t[0], t[1], t[2]),
+                VK::Select => Call::Select(t[0], t[1], t[2]),
+                VK::Horner => Call::Horner(t[0], t[1], t[2], t[3]),
+                VK::Bits(n) => Call::Bits(t[0], *n),
+            });
+        }
+    }
+    out
+}
+
+fn unstaged_value_calls(fam: &Family, st: &EnumState) -> Vec<Call> {
     let mut out = vec![];
     // value calls only while no assertion has been placed
     if st.n_assert == 0 && st.n_value < fam.max_value_ops {
@@ -208,6 +345,11 @@ pub fn next_calls(fam: &Family, st: &EnumState) -> Vec<Call> {
             }
         }
     }
+    out
+}
+
+fn assert_calls(fam: &Family, st: &EnumState) -> Vec<Call> {
+    let mut out = vec![];
     if st.n_assert < fam.max_asserts && st.n_value > 0 {
         let mut asserts = vec![];
         for ak in &fam.assert_kinds {
@@ -236,6 +378,15 @@ pub fn next_calls(fam: &Family, st: &EnumState) -> Vec<Call> {
             }
         }
         for a in asserts {
+            if let Some((m_in, m_res)) = fam.assert_split {
+                let input_only = st.assert_is_input_only(&a);
+                if input_only && st.n_assert_in >= m_in {
+                    continue;
+                }
+                if !input_only && st.n_assert_res >= m_res {
+                    continue;
+                }
+            }
             // assertions form a set: enumerate in strictly increasing order
             if let Some(l) = &st.last_assert
                 && a <= *l
@@ -256,10 +407,10 @@ pub fn walk(
     st: &EnumState,
     visit: &mut dyn FnMut(&Program, &EnumState) -> bool,
 ) {
-    for c in next_calls(fam, st) {
+    for (c, si) in next_calls_staged(fam, st) {
         let mut p = prefix.clone();
         p.calls.push(c.clone());
-        let ns = st.after(&c);
+        let ns = st.after_staged(&c, si);
         if visit(&p, &ns) {
             walk(fam, &p, &ns, visit);
         }
@@ -272,10 +423,10 @@ pub fn prefixes(fam: &Family, depth: usize) -> Vec<(Program, EnumState)> {
     for _ in 0..depth {
         let mut nxt = vec![];
         for (p, st) in &cur {
-            for c in next_calls(fam, st) {
+            for (c, si) in next_calls_staged(fam, st) {
                 let mut q = p.clone();
                 q.calls.push(c.clone());
-                nxt.push((q, st.after(&c)));
+                nxt.push((q, st.after_staged(&c, si)));
             }
         }
         cur = nxt;
